@@ -49,7 +49,9 @@ CallRules(s, acc, k) ==
       v1 == (IF c.c > c.ai \/ c.p > c.ao \/ Len(c.out) # c.p \/ c.touched_outside # 0 THEN {<<k, "D1-wrote-or-read-beyond-avail">>} ELSE {})
             \cup (IF c.dti # c.c \/ c.dto # c.p \/ c.dni # c.c \/ c.dno # c.p THEN {<<k, "D2-counters-disagree-with-pointers">>} ELSE {})
       \* D3: parameter validation before any effect
-      pok == ParamsOK(s, c.flush)
+      \* (an invalid-parameter call may be injected mid-stream: bad = 1/4 invalid level, 2/3 missing / undersized level buffer, which only levels 1-3 need)
+      bad == IF "bad" \in DOMAIN c THEN c.bad ELSE 0
+      pok == ParamsOK(s, c.flush) /\ (bad = 0 \/ (bad \in {2, 3} /\ s.level = 0))
       v3 == IF pok /\ c.ret # 0 THEN {<<k, "D3-valid-parameters-rejected">>}
             ELSE IF ~pok /\ (c.ret >= 0 \/ c.c # 0 \/ c.p # 0) THEN {<<k, "D3-invalid-parameters-not-rejected-cleanly">>} ELSE {}
       produced == acc.produced \o c.out
